@@ -289,6 +289,32 @@ func gen(g *GenCtx, profile string) {
 			c.op("rd S0")
 		}
 	}
+	if g.Part == 1%g.Parts {
+		// fixed case: recorded genuine packets replayed from another address at every depth of the replay
+		// window (newest, block edges, the oldest block that is still inside the window, just outside) — none
+		// may be accepted or move the session; a fresh genuine packet from a new address still does
+		c := &caseGen{g: g, n: 1, addrOf: []int{0}}
+		g.Op("new 1 50")
+		var refs []string
+		for i := 0; i < 470; i++ {
+			l := c.op("wr C0 4 1")
+			refs = append(refs, fmt.Sprintf("%d.0", l))
+			c.op("dlv S 0 %s none", refs[i])
+			if i%20 == 19 {
+				c.op("rd S0")
+			}
+		}
+		c.op("rd S0")
+		for _, age := range []int{0, 1, 2, 62, 63, 64, 65, 127, 128, 129, 383, 384, 385, 386, 400, 407, 415, 430, 446, 447, 448, 449, 450, 460, 469} {
+			c.op("dlv S 13 %s none", refs[len(refs)-1-age])
+			c.op("probe S0")
+		}
+		l := c.op("wr C0 4 1")
+		c.op("dlv S 14 %d.0 none", l)
+		c.op("probe S0")
+		c.op("rd S0")
+		c.op("scan")
+	}
 	for ci := 0; ci < cases; ci++ {
 		n := 1 + g.R.Intn(3)
 		c := &caseGen{g: g, n: n, roam: profile == "roam"}
